@@ -5,7 +5,9 @@ import SslModel.Model.ValText
 Proved here, over the model of `parse_int_with_radix` and of the `{:?}` / `unescaper` pair:
 integer literals denote their positional value or overflow, exactly at 2^63 - 1 (2^63 for a negated
 literal), whatever underscores they contain; each escape the printer emits is read back as the
-character it stands for.  The round trip of whole nested values is checked on generated values in
+character it stands for, and every ASCII *string* is read back from its escaped form
+(`ascii_string_roundtrip`, by induction with `unescape_escapeChar` for an arbitrary remaining text).
+The round trip of whole nested values is checked on generated values in
 both directions between model and implementation (tools/props/c20.py), not yet proved.
 -/
 set_option linter.unusedSimpArgs false
@@ -92,5 +94,77 @@ theorem ascii_escape_roundtrip :
       unescape 12 (escapeChar (Char.ofNat n.val) ++ ['1']) = some [Char.ofNat n.val, '1'] ∧
       unescape 12 (escapeChar (Char.ofNat n.val) ++ ['a']) = some [Char.ofNat n.val, 'a'] ∧
       unescape 12 (escapeChar (Char.ofNat n.val)) = some [Char.ofNat n.val] := by decide
+
+/-! ## whole strings: every ASCII string is read back from its escaped form -/
+
+theorem hexDigit_ne_brace : ∀ k : Fin 16, (hexDigit k.val != '}') = true := by decide
+
+theorem parseHex_hexOf : ∀ n : Fin 256, parseHex (hexOf n.val) = some n.val := by decide +kernel
+
+theorem hexOf_takeWhile : ∀ n : Fin 256, ∀ rest : List Char,
+    (hexOf n.val ++ '}' :: rest).takeWhile (· != '}') = hexOf n.val ∧
+    ((hexOf n.val ++ '}' :: rest).dropWhile (· != '}')).drop 1 = rest := by
+  intro n rest
+  unfold hexOf
+  split
+  · rename_i h
+    have := hexDigit_ne_brace ⟨n.val, h⟩
+    simp [List.takeWhile, List.dropWhile, this]
+  · have h1 := hexDigit_ne_brace ⟨n.val / 16 % 16, by omega⟩
+    have h2 := hexDigit_ne_brace ⟨n.val % 16, by omega⟩
+    have h1' : (hexDigit (n.val / 16 % 16) != '}') = true := by simpa using h1
+    have h2' : (hexDigit (n.val % 16) != '}') = true := by simpa using h2
+    simp [List.takeWhile, List.dropWhile, h1', h2']
+
+
+/-- one escaped character in front of ANY remaining text -/
+theorem unescape_escapeChar (c : Char) (hc : c.toNat < 128) (f : Nat) (rest : List Char) :
+    unescape (f + 1) (escapeChar c ++ rest) = (unescape f rest).map (c :: ·) := by
+  unfold escapeChar
+  by_cases h1 : (c == '"') = true
+  · have : c = '"' := by simpa using h1
+    subst this; simp [unescape]
+  by_cases h2 : (c == '\\') = true
+  · have : c = '\\' := by simpa using h2
+    subst this; simp [unescape]
+  by_cases h3 : (c == '\n') = true
+  · have : c = '\n' := by simpa using h3
+    subst this; simp [unescape]
+  by_cases h4 : (c == '\r') = true
+  · have : c = '\r' := by simpa using h4
+    subst this; simp [unescape]
+  by_cases h5 : (c == '\t') = true
+  · have : c = '\t' := by simpa using h5
+    subst this; simp [unescape]
+  simp only [h1, h2, h3, h4, h5, Bool.false_eq_true, if_false]
+  by_cases h6 : (c.toNat < 32 || c.toNat == 127) = true
+  · simp only [h6, if_true]
+    have hlt : c.toNat < 256 := by omega
+    obtain ⟨ht, hd⟩ := hexOf_takeWhile ⟨c.toNat, hlt⟩ rest
+    have hp := parseHex_hexOf ⟨c.toNat, hlt⟩
+    simp only at ht hd hp
+    have hcc : Char.ofNat c.toNat = c := Char.ofNat_toNat c
+    simp only [List.cons_append, List.nil_append, List.append_assoc, unescape]
+    simp [ht, hd, hp, hcc]
+    omega
+  · simp only [h6, Bool.false_eq_true, if_false]
+    have hne : (c != '\\') = true := by simpa using h2
+    simp [unescape, hne]
+
+/-- **every ASCII string**: unescaping the escaped text gives the string back -/
+theorem ascii_string_roundtrip (s : List Char) (hs : ∀ c ∈ s, c.toNat < 128) :
+    unescape (s.length + 1) (escape s) = some s := by
+  induction s with
+  | nil => simp [escape, unescape]
+  | cons c s ih =>
+    have : escape (c :: s) = escapeChar c ++ escape s := by simp [escape]
+    rw [this]
+    have h := unescape_escapeChar c (hs c (by simp)) (s.length + 1) (escape s)
+    simp only [List.length_cons]
+    rw [h, ih (fun x hx => hs x (by simp [hx]))]
+    rfl
+
+/-- and it is the printed form of a string value between quotes that the reader sees -/
+example : unescape 20 (escape "a\"b\\0\n\x1b".toList) = some "a\"b\\0\n\x1b".toList := by decide
 
 end Ssl.C20
